@@ -27,6 +27,12 @@ def catalog(rng, form=None):
     else:
         integrations = [{'name': n, 'type': 'data'} for n in ints]
         desc['integrations'] = 'dicts'
+        # optional keys of a catalog record: absent, given, or given as None
+        for rec in integrations:
+            ct = rng.choice(['absent', 'absent', 'sql', None])
+            if ct != 'absent':
+                rec['class_type'] = ct
+        desc['class_types'] = [rec.get('class_type', 'absent') for rec in integrations]
         if form == 2:
             integrations.append({'name': 'api1', 'type': 'data', 'class_type': 'api'})
             integrations.append({'name': 'proj', 'type': 'project'})
